@@ -20,6 +20,11 @@
 //!   extreme    every 2x2 / 1x3 / 3x1 matrix over a 9-letter alphabet of subnormals, the smallest normal,
 //!              a value with a subnormal square, +-1 and values next to the top of the range (per float
 //!              type): norm scalers, max-abs, min-max;
+//!   builder    every constructor form and `.method(..)` setter history (decoy then real, written twice) of
+//!              each logical configuration: params equal, published method equal, fit and transforms
+//!              bit-identical to the canonical constructor; one params object fitted on A, B, A again; one
+//!              fitted object applied to A, B (array / dataset / dataset-view / clone), A again: no state
+//!              may leak between calls;
 //!   long       1025 and 4097 rows x 2 columns cycling through the alphabet, standard and column-major:
 //!              all oracles, row-wise map on a handful of rows.
 //! All of it in f32 and f64. Oracle = plain f64 recomputation (run.rs), no linfa code.
@@ -221,6 +226,7 @@ fn main() {
          pairs = every (A, B) with A from the training pool (all multisets of 1..3 (quick) / 1..4 (thorough) of 5 rows, one 4-row matrix, the 6-row unscaled catalogue members) and B from the unseen pool \
          (all multisets of 0..3 / 0..4 of 5 other rows, one 4-row matrix); norm = norm scalers on every pool matrix; whiten = catalogue (2 base designs x n in {6,8,12} x 3^p column images x 3 global scales); \
          dataset = 2 matrices per p x 32 dataset forms x 4 memory layouts; layout = training pool (multisets of 2..3 rows, the 4-row matrix, 6-row lattice catalogue members) x unseen matrices x {col_major, transposed_view, reversed_rows_view}; \
+         builder = 2 dataset matrices + every 9th 3-row pool matrix per p x {standard, col_major} x 4 unseen matrices (same shape, same shape sharing first and last row, other shape, empty): 37 linear forms per configuration, 12 whitener forms per method, re-use sequences for every configuration; \
          extreme = every 2x2, 1x3, 3x1 matrix over 9 extreme-magnitude letters per float type (norm scalers, max-abs, min-max only); long = 1025 and 4097 rows x 2 columns, standard and column-major (row-wise check on 9 fixed rows); errors = empty training data for p in 0..3, wrong width 1..4. Every family in f64 and f32 and through every configuration: \
          standard / no-mean / no-std / neither, min-max (0,1), (-1,1), (2,5), (3,3), flipped (5,2), max-abs, norm l1 / l2 / max, whitening PCA / ZCA / Cholesky. \
          One evaluation = one (training matrix [, unseen matrix], float type, configuration) run through all its oracles. Non-trivial: linear scalers = training matrix with >= 2 distinct rows and a non-constant column \
@@ -238,6 +244,7 @@ fn main() {
     ctx.assume("wrong column count: LinearScaler::transform documents a panic, which is what is checked; nothing is documented for whiteners (not checked)");
     ctx.assume("memory layout: one fitted object applied to the same logical matrix in standard layout and in another layout must give bit-identical values (<scaler>.layout_dependence); accessors of a fit on another layout are only tallied (ndarray sums a lane in a stride-dependent order)");
     ctx.assume("extreme magnitudes: non-finite output for finite input is always a violation; reference l2 norm is computed on the max-scaled row; l2 rows whose sum of squares (in the subject's float type) is below MIN_POSITIVE/eps get the extra tolerance p*min_subnormal/sum and are indeterminate when that exceeds 1e-2; rows whose squares underflow to 0 / overflow to inf and come back unchanged / all-zero get the two narrow norm_scaler.l2.squares_* signatures; tolerances of the affine-map and x/norm checks carry an absolute floor of a few smallest subnormals");
+    ctx.assume("builder family: all forms denote the same logical parameters, so params (PartialEq), LinearScaler::method(), fit accessors and transforms must be bit-identical to the canonical constructor's (<thing>.params.builder_order_dependence / .constructor_dependence); re-use: <thing>.params.state_leak_between_fits, <thing>.state_leak_between_calls; the subject has no in-place / caller-buffer entry points (transform consumes its argument), so there is no stale-buffer dimension");
     ctx.assume("accumulation length: the cond-scaled tolerances of standard scaling and whitening are multiplied by max(1, n/8)");
     ctx.assume("linfa-preprocessing is built as the repository configures it: pure-Rust linfa-linalg, no BLAS feature");
     ctx.assume("whiteners are fitted only on full-rank training data (and on empty data, which must be an error): nothing is stated for rank-deficient data, and Whitener::zca().fit on a single row with >= 3 columns does not terminate (NaN covariance fed to linfa-linalg's uncapped SVD loop); a watchdog turns any job running > 150 s into a MACHINERY-ERROR naming the case");
@@ -407,6 +414,34 @@ fn main() {
             }
         }
     }
+    // ---- builder family: constructor forms / setter histories, re-use of params and fitted objects
+    let mut builder_cases = 0u64;
+    for p in 1..=3usize {
+        let mut trains: Vec<Mat> = dataset_matrices(p).into_iter().map(|(m, _)| m).collect();
+        trains.extend(matrix_pool(p, "train", 3, 3).into_iter().step_by(9));
+        for a in &trains {
+            // unseen / second-fit matrices: a same-shape matrix with other values, a same-shape matrix that
+            // shares the first and the last row with A, a matrix of another shape, and an empty one
+            let same_shape: Mat = a.iter().enumerate().map(|(i, r)| r.iter().enumerate().map(|(j, x)| x * 1.5 + (i * i) as f64 - 0.25 * j as f64).collect()).collect();
+            let mut shares_ends = a.clone();
+            let mid = a.len() / 2;
+            for x in shares_ends[mid].iter_mut() {
+                *x = *x * -2.0 + 3.0;
+            }
+            let other_shape = matrix_pool(p, "test", 2, 2)[3].clone();
+            let tests = vec![same_shape, shares_ends, other_shape, vec![]];
+            for lay in ["standard", "col_major"] {
+                for f in FLOATS {
+                    let mut c = fit_case("builder", f, p, a.clone(), tests.clone(), false, &["linear", "norm", "whiten"]);
+                    c.kind = "builder".into();
+                    c.layout = lay.to_string();
+                    jobs.push(Job::One(c));
+                    builder_cases += 1;
+                }
+            }
+        }
+    }
+    ctx.extra("builder_family_cases", json!(builder_cases));
     for p in 0..=3usize {
         for f in FLOATS {
             let mut c = fit_case("errors:empty_training", f, p, vec![], vec![], false, &["linear", "whiten"]);
